@@ -148,8 +148,13 @@ class Report:
             'wall_s': round(wall, 3),
             'violations': len(new),
         }
-        os.makedirs(EVIDENCE_DIR, exist_ok=True)
-        path = os.path.join(EVIDENCE_DIR, f'{self.prop}.json')
+        evdir = EVIDENCE_DIR
+        if os.environ.get('VERIF_NOEVIDENCE') == '1':
+            # seeded-change runs against a scratch repo must not overwrite
+            # the evidence of the real tree
+            evdir = os.path.join(common.scratch_root(), 'evidence')
+        os.makedirs(evdir, exist_ok=True)
+        path = os.path.join(evdir, f'{self.prop}.json')
         tmp = path + '.tmp'
         with open(tmp, 'w') as f:
             json.dump(ev, f, indent=1, sort_keys=True)
@@ -170,15 +175,18 @@ class Report:
               f'wall={wall:.1f}s violations={len(new)} '
               f'known={len(known_hits)}', flush=True)
 
-        if getattr(self, '_vacuous', False):
-            return 2
         if not new:
-            return 0
-        os.makedirs(os.path.join(REPLAY_DIR, self.prop), exist_ok=True)
+            # a failed vacuity guard or crashed worker means the check itself
+            # is broken: exit 2, never a verdict
+            return 2 if getattr(self, '_vacuous', False) else 0
+        rdir = REPLAY_DIR
+        if os.environ.get('VERIF_NOEVIDENCE') == '1':
+            rdir = os.path.join(common.scratch_root(), 'replays')
+        os.makedirs(os.path.join(rdir, self.prop), exist_ok=True)
         for key, lst in new:
             safe = ''.join(c if c.isalnum() or c in '-_.' else '_'
                            for c in key)[:120]
-            rpath = os.path.join(REPLAY_DIR, self.prop, safe + '.json')
+            rpath = os.path.join(rdir, self.prop, safe + '.json')
             with open(rpath, 'w') as f:
                 json.dump({
                     'property': self.prop,
